@@ -478,6 +478,27 @@ func c11HTTP(c *fw.Ctx) {
 				c.Report("http-value-revealed-without-pr/"+ch.Format, fmt.Sprintf("%s %s: GET /characteristics reveals a value", e.name, pk), cas)
 			}
 		}
+		if !canR(ch) {
+			// the same read while the application has a read callback installed (it answers local reads with it): the
+			// callback's value must not be revealed or stored either
+			c.Eval(1)
+			secret, _ := change(ch, i+5)
+			calls := 0
+			ch.OnValueGet(func() interface{} { calls++; return secret })
+			m, _, err = k.Do("GET", fmt.Sprintf("/characteristics?id=%d.%d", e.acc.ID, ch.ID), "", nil)
+			ch.OnValueGet(nil)
+			if err != nil {
+				c.Infra("GET failed: " + err.Error())
+				return
+			}
+			es, perr := c09ParseEntries(m.Body)
+			switch {
+			case perr == nil && len(es) == 1 && es[0].hasVal:
+				c.Report("http-value-revealed-without-pr/read-callback/"+ch.Format, fmt.Sprintf("%s %s: GET /characteristics reveals the value of the application's read callback (callback invoked %d times)", e.name, pk, calls), cas)
+			case ch.Value != nil:
+				c.Report("http-value-stored-without-pr/read-callback/"+ch.Format, fmt.Sprintf("%s %s: a remote read stored the read callback's value", e.name, pk), cas)
+			}
+		}
 		// 3. subscription
 		c.Eval(1)
 		m, _, err = put(fmt.Sprintf(`{"characteristics":[{%s,"ev":true}]}`, id))
@@ -638,7 +659,7 @@ func init() {
 	fw.Register(&fw.Check{
 		ID:    "C11",
 		Level: "exploration",
-		Rule:  "every characteristic constructor found in /repo with its own permissions plus the five generic constructors under all 8 subsets of {pr,pw,ev}. In-process: every subject × ≈40 JSON-like values through UpdateValueFromConnection, alone and after each of five first events that change nothing (local update with the same value, ignored local updates, a remote read with and without a read callback, a remote write of the current value), (and UpdateValue for write-only ones): without pw value and all callback counters unchanged; without pr no value stored or encoded. HTTP (real transport, verified controller): per characteristic a changing valid PUT, a GET, ev=true, value+ev in one entry, then a local and a remote change followed by a barrier request: without pw nothing changes and no callback fires; without pr no value is stored or revealed; without ev the subscription entry is answered with a non-zero status (also for non-boolean spellings of the flag) and no EVENT follows; an EVENT for an observable characteristic without pr carries no value. distinct_nontrivial = distinct (path, format, permission set) classes The permissions a subject is DECLARED to have are taken from gen/metadata.json (by type id), not from the object; subjects whose permission sets come from the exported helpers (PermsAll/Read/ReadOnly/WriteOnly) are built while other code extends and edits the helpers' results; a rejected subscription inside requests with entries that succeed (before / after it) still carries its status. Plus, in a subprocess built with a scheduling point before EVERY statement of hc's packages (textual insertion through go build -overlay): every interleaving with at most 1 (thorough 2) preemptions of pairs of operations on disjoint objects — and, where the property is about served requests, of pairs of handlers on two verified connections of one accessory touching different characteristics — each side must observe exactly what it observes when the two run one after the other (module-level mutable state is what makes them differ).",
+		Rule:  "every characteristic constructor found in /repo with its own permissions plus the five generic constructors under all 8 subsets of {pr,pw,ev}. In-process: every subject × ≈40 JSON-like values through UpdateValueFromConnection, alone and after each of five first events that change nothing (local update with the same value, ignored local updates, a remote read with and without a read callback, a remote write of the current value), (and UpdateValue for write-only ones): without pw value and all callback counters unchanged; without pr no value stored or encoded. HTTP (real transport, verified controller): per characteristic a changing valid PUT, a GET, ev=true, value+ev in one entry, then a local and a remote change followed by a barrier request: without pw nothing changes and no callback fires; without pr no value is stored or revealed (also while the application has a read callback installed); without ev the subscription entry is answered with a non-zero status (also for non-boolean spellings of the flag) and no EVENT follows; an EVENT for an observable characteristic without pr carries no value. distinct_nontrivial = distinct (path, format, permission set) classes The permissions a subject is DECLARED to have are taken from gen/metadata.json (by type id), not from the object; subjects whose permission sets come from the exported helpers (PermsAll/Read/ReadOnly/WriteOnly) are built while other code extends and edits the helpers' results; a rejected subscription inside requests with entries that succeed (before / after it) still carries its status. Plus, in a subprocess built with a scheduling point before EVERY statement of hc's packages (textual insertion through go build -overlay): every interleaving with at most 1 (thorough 2) preemptions of pairs of operations on disjoint objects — and, where the property is about served requests, of pairs of handlers on two verified connections of one accessory touching different characteristics — each side must observe exactly what it observes when the two run one after the other (module-level mutable state is what makes them differ).",
 		Run:   c11Run,
 		Replay: func(c *fw.Ctx, raw json.RawMessage) {
 			var cas c11Case
